@@ -68,6 +68,11 @@ type msgSpec struct {
 	Parsed  bool
 	BodyHdr string
 
+	// BlockAt >= 0: the body behaves like a pipe or a network body: at this
+	// offset Read blocks until the body is closed, and Close (called from another
+	// goroutine while the Read is pending) makes it return errBodyClosed.
+	BlockAt int
+
 	BodySize int
 	BodySeed int64 // behaviour of the underlying body
 	ReadSeed int64 // behaviour of the consumer
@@ -76,6 +81,11 @@ type msgSpec struct {
 }
 
 var errBoom = errors.New("c19: injected body error")
+var errBodyClosed = errors.New("c19: read on closed body")
+
+// hangsSeen counts sessions that never completed (Close during a pending Read
+// hung); after a few, no more blocking bodies are generated in this child.
+var hangsSeen int32
 var errClose = errors.New("c19: injected close error")
 
 var headerNames = []string{"X-A", "X-B", "Accept", "Cookie", "Set-Cookie", "X-Forwarded-For", "x-lower-case", "X-Verif-Long-Header-Name-0123456789", "Via", "Content-Type", "X-Bin", "X-Empty"}
@@ -168,6 +178,11 @@ func genMsg(rng *rand.Rand, sess, g, j int, small bool) *msgSpec {
 	m.StopMode = []int{0, 0, 0, 1, 2}[rng.Intn(5)]
 	if rng.Intn(3) == 0 {
 		makeParsed(m, rng)
+	}
+	m.BlockAt = -1
+	if rng.Intn(10) == 0 && atomic.LoadInt32(&hangsSeen) < 3 {
+		m.BlockAt = rng.Intn(m.BodySize + 1)
+		m.StopMode = 0
 	}
 	return m
 }
@@ -266,16 +281,23 @@ type srcBody struct {
 	failOnce bool  // transient: after the failing read the body goes on (reads after an error)
 	failErr  error // errBoom or io.ErrUnexpectedEOF
 	failed   bool
-	log      []rd
-	closed   int32
-	closeErr error
+	// pipe-like behaviour (see msgSpec.BlockAt)
+	blockAt   int
+	blockedc  chan struct{} // closed when a Read starts waiting
+	closec    chan struct{} // closed by Close
+	blockOnce sync.Once
+	closeOnce sync.Once
+	log       []rd
+	closed    int32
+	closeErr  error
 }
 
 func newSrcBody(m *msgSpec) *srcBody {
 	rng := rand.New(rand.NewSource(m.BodySeed))
-	b := &srcBody{data: vh.Stamp(m.StampID, m.BodySize), rng: rng, failAt: -1}
-	switch rng.Intn(4) {
-	case 0:
+	b := &srcBody{data: vh.Stamp(m.StampID, m.BodySize), rng: rng, failAt: -1, blockAt: m.BlockAt,
+		blockedc: make(chan struct{}), closec: make(chan struct{})}
+	switch rng.Intn(5) {
+	case 0, 4:
 		b.maxChunk = 1 << 30
 	case 1:
 		b.maxChunk = 1 + rng.Intn(16)
@@ -301,6 +323,12 @@ func newSrcBody(m *msgSpec) *srcBody {
 			b.failErr = io.ErrUnexpectedEOF // what net/http's chunked reader returns for a body cut mid-chunk
 		}
 	}
+	if b.blockAt >= 0 {
+		b.failAt = -1
+		if b.blockAt > len(b.data) {
+			b.blockAt = len(b.data)
+		}
+	}
 	if rng.Intn(8) == 0 {
 		b.closeErr = errClose
 	}
@@ -309,6 +337,19 @@ func newSrcBody(m *msgSpec) *srcBody {
 
 func (b *srcBody) Read(p []byte) (n int, err error) {
 	defer func() { b.log = append(b.log, rd{n, err}) }()
+	if b.blockAt >= 0 {
+		select {
+		case <-b.closec:
+			return 0, errBodyClosed
+		default:
+		}
+		if b.off >= b.blockAt {
+			// no more data for now: wait, like a pipe or a socket, until closed
+			b.blockOnce.Do(func() { close(b.blockedc) })
+			<-b.closec
+			return 0, errBodyClosed
+		}
+	}
 	armed := b.failAt >= 0 && !(b.failOnce && b.failed)
 	if armed && b.off >= b.failAt {
 		b.failed = true
@@ -330,6 +371,9 @@ func (b *srcBody) Read(p []byte) (n int, err error) {
 	if c := 1 + b.rng.Intn(b.maxChunk); n > c {
 		n = c
 	}
+	if b.blockAt >= 0 && b.off+n > b.blockAt {
+		n = b.blockAt - b.off
+	}
 	if armed && b.off+n >= b.failAt {
 		n = b.failAt - b.off
 		if b.failWith {
@@ -350,6 +394,7 @@ func (b *srcBody) Read(p []byte) (n int, err error) {
 
 func (b *srcBody) Close() error {
 	atomic.AddInt32(&b.closed, 1)
+	b.closeOnce.Do(func() { close(b.closec) })
 	return b.closeErr
 }
 
@@ -365,7 +410,7 @@ type consumed struct {
 func consume(m *msgSpec, body io.ReadCloser) *consumed {
 	rng := rand.New(rand.NewSource(m.ReadSeed))
 	c := &consumed{}
-	maxBuf := []int{1, 7, 512, 4096, 32 << 10, 64 << 10}[rng.Intn(6)]
+	maxBuf := []int{1, 7, 512, 4096, 32 << 10, 64 << 10, 128 << 10, 300000, 1 << 20}[rng.Intn(9)]
 	// every read is a frame: keep the frame count of a large body in the thousands
 	if m.BodySize/maxBuf > 3000 {
 		maxBuf = m.BodySize/3000 + 1
@@ -378,7 +423,21 @@ func consume(m *msgSpec, body io.ReadCloser) *consumed {
 	if m.StopMode == 2 {
 		extra = 1 + rng.Intn(2)
 	}
-	buf := make([]byte, 64<<10)
+	buf := make([]byte, maxBuf+1)
+	var closerDone, loopDone chan struct{}
+	if src, ok := underlying(body); ok && m.BlockAt >= 0 {
+		// the body is closed from another goroutine while a Read is pending
+		closerDone = make(chan struct{})
+		loopDone = make(chan struct{})
+		go func() {
+			select {
+			case <-src.blockedc:
+			case <-loopDone: // the consumer stopped before the body ran dry
+			}
+			c.closeErr = body.Close()
+			close(closerDone)
+		}()
+	}
 	for reads := 0; reads < 200000; reads++ {
 		if early >= 0 && reads >= early {
 			break
@@ -409,9 +468,34 @@ func consume(m *msgSpec, body io.ReadCloser) *consumed {
 			break
 		}
 	}
-	c.closeErr = body.Close()
+	if closerDone != nil {
+		close(loopDone)
+		<-closerDone
+	} else {
+		c.closeErr = body.Close()
+	}
 	c.closed = true
 	return c
+}
+
+func wasBlocked(b *srcBody) bool {
+	select {
+	case <-b.blockedc:
+		return true
+	default:
+		return false
+	}
+}
+
+// srcOf remembers the instrumented body behind each wrapper handed to consume.
+var srcOf sync.Map
+
+func underlying(body io.ReadCloser) (*srcBody, bool) {
+	v, ok := srcOf.Load(body)
+	if !ok {
+		return nil, false
+	}
+	return v.(*srcBody), true
 }
 
 // ---------------------------------------------------------------------------
@@ -619,7 +703,9 @@ func logOne(s *marbl.Stream, m *msgSpec) *result {
 		body = hres.Body
 	}
 	res.t1 = time.Now().UnixNano() / 1e6
+	srcOf.Store(body, res.src)
 	res.cons = consume(m, body)
+	srcOf.Delete(body)
 	return res
 }
 
@@ -692,7 +778,38 @@ func runLogSession(r *vh.Run, c logCase) {
 		}(g)
 	}
 	close(start)
-	wg.Wait()
+	finished := make(chan struct{})
+	go func() { wg.Wait(); close(finished) }()
+	activity := func() string {
+		if ws != nil {
+			return strconv.FormatInt(atomic.LoadInt64(&ws.msgs), 10)
+		}
+		return strconv.FormatInt(atomic.LoadInt64(&w.n), 10)
+	}
+	if o, fp := vh.Await(func() bool {
+		select {
+		case <-finished:
+			return true
+		default:
+			return false
+		}
+	}, vh.AwaitOpts{Activity: activity, Watchdog: 180 * time.Second}); o != vh.Happened {
+		if o == vh.Stuck {
+			// every goroutine is parked and nothing moves: a Read or Close through the
+			// wrapper never returned although the underlying body answers both
+			atomic.AddInt32(&hangsSeen, 1)
+			class := "other"
+			if strings.Contains(fp, "bodyLogger).Close") {
+				class = "close-during-pending-read"
+			}
+			r.Eval(1)
+			r.ViolationCase(c, "C19:wrapper-hang:"+class, "logging, reading and closing through the wrapper did not complete and the process is quiescent: "+
+				"a Read/Close through the logging wrapper hangs although the underlying body returns from both", map[string]interface{}{"goroutines": fp})
+		} else {
+			r.Inconclusive("session did not complete (system not quiescent)", fp)
+		}
+		return
+	}
 	// Close is received by the stream's writer goroutine only between two
 	// frames: once it returns, every frame handed over so far has been written.
 	stream.Close()
@@ -817,6 +934,8 @@ func judgeOutput(r *vh.Run, c interface{}, driver, writer string, K int, out []b
 			}
 			how := "open"
 			switch {
+			case m.BlockAt >= 0 && wasBlocked(res.src):
+				how = "closed-during-pending-read"
 			case res.cons.sawEOF && m.StopMode == 2:
 				how = "eof+more-reads"
 			case res.cons.sawEOF:
